@@ -97,6 +97,7 @@ type PkgContracts struct {
 	Name      string
 	File      string
 	Imports   []string
+	AbstractStrEq bool
 	Specs     map[string]*SpecFunc
 	Axioms    []*Axiom
 	Lemmas    map[string]*Lemma
@@ -280,6 +281,15 @@ func parseContractText(text, path, importPath string) (pc *PkgContracts, err err
 			switch word {
 			case "import":
 				pc.Imports = append(pc.Imports, rest)
+				cur = nil
+			case "abstract":
+				// abstract string equality: == on strings is equality of an uninterpreted content function (no byte-level
+				// reasoning in this package); sound because the real content function is one of its interpretations
+				if strings.TrimSpace(rest) == "string equality" {
+					pc.AbstractStrEq = true
+				} else {
+					panic(fmt.Errorf("unknown abstraction %q", rest))
+				}
 				cur = nil
 			case "byref":
 				// byref TypeName, …: values of these struct types are heap objects identified with references (a
